@@ -44,7 +44,8 @@ TreeMDomain(t) ==
     [] t.k = "sms" -> IF t.inner = <<>> THEN AsciiConsistent(t) /\ SmallSegs(t.map)
                       ELSE C09DomainM(t) /\ SmallSegs(t.map) /\ SmallSegs(t.inner[1])
     [] t.k = "concat" -> LET ch == Children(t) IN \A i \in 1..Len(ch) : TreeMDomain(ch[i])
-    [] t.k \in {"replace", "box"} -> TreeMDomain(t.inner)
+    [] t.k = "box" -> TreeMDomain(t.inner)
+    [] t.k = "replace" -> TreeMDomain(t.inner) /\ \A i \in 1..Len(t.repls) : IsAscii(t.repls[i].c) /\ t.repls[i].s <= t.repls[i].e
     [] OTHER -> FALSE
 
 VChunk(x, gl, gc, a) == [x |-> x, gl |-> gl, gc |-> gc, a |-> a]
